@@ -181,7 +181,9 @@ func nonTermination(real json.RawMessage) string {
 	if h, ok := m["hang"]; ok {
 		return fmt.Sprintf("no answer within %v", h)
 	}
-	if f, ok := m["fatal"].(string); ok && (f == "stack-overflow" || f == "out-of-memory" || strings.Contains(f, "stack") || strings.Contains(f, "memory")) {
+	if f, ok := m["fatal"].(string); ok && f != "concurrent-map-access" && f != "deadlock" {
+		// stack / memory exhaustion; the runtime's message is at the head of a crash dump of which only the
+		// tail is kept, so an unclassified death ("died: …") is the same thing
 		return "process died: " + f
 	}
 	return ""
